@@ -528,14 +528,30 @@ def fam_pass_real(ctx):
     return f
 
 
+def _count_blockwise(expr):
+    from dask_expr._expr import is_valid_blockwise_op
+
+    seen, stack, n = set(), [expr], 0
+    while stack:
+        e = stack.pop()
+        if e._name in seen:
+            continue
+        seen.add(e._name)
+        n += bool(is_valid_blockwise_op(e))
+        stack.extend(e.dependencies())
+    return n
+
+
 def fam_native(ctx):
     """T3: unmodified code (native set order): every group satisfies the proven checker groupOKb,
-    every resulting Fused satisfies fusedOK (the hypothesis of C14_task)."""
-    f = Family("native_groups[proven checkers groupOKb / fusedOK on the groups the unmodified code finds]")
+    every plan the hypothesis planOKb of C14_terminates, every resulting Fused satisfies fusedOK
+    (the hypothesis of C14_task); T2: the measure of C14_terminates is the number of reachable
+    valid blockwise expressions of the real plan (before and after each pass)."""
+    f = Family("native_groups[proven checkers groupOKb / planOKb / fusedOK + measure on the groups the unmodified code finds]")
     from dask_expr._expr import Fused
 
     rng = ctx.rng
-    reqs, inputs = [], []
+    reqs, inputs, want = [], [], []
     cases = []
     for _ in range(1500 if ctx.quick else 20000):
         sp = random_spec(rng)
@@ -548,21 +564,33 @@ def fam_native(ctx):
             out, calls = _fuse_real(expr, None)
         except Exception as e:  # noqa: BLE001
             reqs.append("ping")
+            want.append("OK")
             inputs.append({"case": str(label), "error": f"{type(e).__name__}: {str(e)[:80]}"})
             continue
-        for before, fused in calls:
+        for n, (before, fused) in enumerate(calls):
             pb = Plan(before)
             reqs.append(f"fusion group dag={pb.text} root={pb.root} group={_l([pb.id(m) for m in fused.exprs])}")
+            want.append("OK")
             inputs.append({"case": str(label), "check": "group", "plan": pb.text})
+            reqs.append(f"fusion planok dag={pb.text} root={pb.root}")
+            want.append("OK")
+            inputs.append({"case": str(label), "check": "planok", "plan": pb.text})
+            reqs.append(f"fusion measure dag={pb.text} root={pb.root}")
+            want.append(str(_count_blockwise(before)))
+            inputs.append({"case": str(label), "check": "measure", "plan": pb.text})
         if calls:
             pf = Plan(out)
+            reqs.append(f"fusion measure dag={pf.text} root={pf.root}")
+            want.append(str(_count_blockwise(out)))
+            inputs.append({"case": str(label), "check": "measure-final", "plan": pf.text})
             for e in pf.exprs:
                 if isinstance(e, Fused):
                     reqs.append(f"fusion check dag={pf.text} node={pf.id(e)}")
+                    want.append("OK")
                     inputs.append({"case": str(label), "check": "fused", "plan": pf.text, "node": pf.id(e)})
     model = drive(reqs)
-    f.compare(inputs, ["OK"] * len(reqs), model)
-    f.note = f"{len(cases)} plans, {len(reqs)} checked groups / fused nodes"
+    f.compare(inputs, want, model)
+    f.note = f"{len(cases)} plans, {len(reqs)} checks"
     return f
 
 
@@ -773,10 +801,16 @@ def compare_fuse(expr, twice=False):
     if ra[0] == "err" or rb[0] == "err":
         return f"graph execution raised only {'unfused' if ra[0] == 'err' else 'fused'}: {(ra if ra[0] == 'err' else rb)[1:]}"
     unordered = _has_unordered(ea)
+    # a join renumbers its output rows: with an unspecified row order the index labels are unspecified too
+    noindex = unordered and _has_join(ea)
     for i, (x, y) in enumerate(zip(ra[1], rb[1])):
-        if not e2e.same(x, y, sort_rows=unordered):
+        if not e2e.same(x, y, sort_rows=unordered, drop_index=noindex):
             return f"partition {i} differs: unfused={e2e.describe(x, 6)!r:.200} fused={e2e.describe(y, 6)!r:.200}"
     return None
+
+
+def _has_join(expr):
+    return any("Merge" in type(e).__name__ or "Join" in type(e).__name__ for e in expr.walk())
 
 
 def _has_unordered(expr):
